@@ -37,6 +37,7 @@ from xsdata.formats.dataclass.parsers.config import ParserConfig  # noqa: E402
 from xsdata.formats.dataclass.parsers.handlers import LxmlEventHandler, XmlEventHandler  # noqa: E402
 from xsdata.formats.dataclass.serializers import DictEncoder, JsonSerializer, XmlSerializer  # noqa: E402
 from xsdata.formats.dataclass.serializers.config import SerializerConfig  # noqa: E402
+from xsdata.models.datatype import XmlDate, XmlDateTime  # noqa: E402
 
 # ---------------------------------------------------------------------------
 # the model pool (module level so that the classes are importable / locatable)
@@ -120,6 +121,42 @@ class Pick:
         {"name": "i", "type": int}, {"name": "c", "type": Child})})
 
 
+@dataclass
+class KBase:                      # a base with a namespace ...
+    class Meta:
+        namespace = "urn:k"
+    k: Optional[str] = field(default=None, metadata={"type": "Element"})
+
+
+@dataclass
+class Kid(KBase):                 # ... and a subclass without a Meta of its own: its own fields follow whoever uses it
+    own: Optional[str] = field(default=None, metadata={"type": "Element"})
+
+
+@dataclass
+class PA:
+    class Meta:
+        name = "pa"
+        namespace = "urn:a"
+    kid: Optional[Kid] = field(default=None, metadata={"type": "Element"})
+
+
+@dataclass
+class PB:
+    class Meta:
+        name = "pb"
+        namespace = "urn:b"
+    kid: Optional[Kid] = field(default=None, metadata={"type": "Element"})
+
+
+@dataclass
+class Sched:                      # a compound field whose choices are told apart by the value, not by its python type
+    class Meta:
+        name = "sched"
+    when: List[object] = field(default_factory=list, metadata={"type": "Elements", "choices": (
+        {"name": "d", "type": XmlDate}, {"name": "dt", "type": XmlDateTime}, {"name": "n", "type": int})})
+
+
 XSI = 'xmlns:xsi="http://www.w3.org/2001/XMLSchema-instance"'
 DOCS = {
     "a1": '<x:a xmlns:x="urn:a"><x:c k="1"><x:v>one</x:v></x:c><x:n>5</x:n><x:q xmlns:p="urn:p1">p:name</x:q></x:a>',
@@ -139,6 +176,10 @@ DOCS = {
     "rootx2": f'<s:vehicle xmlns:s="urn:v" xmlns:t="urn:s" {XSI} xsi:type="t:circle"><s:doors>2</s:doors></s:vehicle>',
     "rootx3": f'<shape xmlns="urn:s" {XSI} xsi:type="circle"><r>3</r></shape>',
     "rootx4": f'<t:shape xmlns:t="urn:s" xmlns:s="urn:s" {XSI} xsi:type="s:circle"><t:r>4</t:r></t:shape>',
+    "pa": '<a:pa xmlns:a="urn:a" xmlns:k="urn:k"><a:kid><k:k>1</k:k><a:own>x</a:own></a:kid></a:pa>',
+    "pb": '<b:pb xmlns:b="urn:b" xmlns:k="urn:k"><b:kid><k:k>2</k:k><b:own>y</b:own></b:kid></b:pb>',
+    "rootx5": f'<o:w xmlns:o="urn:o" xmlns:s="urn:s" {XSI} xsi:type="s:circle"><s:r>5</s:r></o:w>',
+    "plain-w": '<o:w xmlns:o="urn:o">t</o:w>',
     "rebind": f'<s:drawing xmlns:s="urn:other" {XSI}><t:shape xmlns:t="urn:s" xmlns:s="urn:s" xsi:type="s:circle"/></s:drawing>',
 }
 OBJS = {
@@ -146,6 +187,10 @@ OBJS = {
     "B": lambda: B(c=Child("bee"), items=[Child(k=2), Child("i")]),
     "D": lambda: Drawing(shape=Circle(id=3, r=1.5), ride=Car(w=2, doors=4), u=7, attrs={"{urn:o}z": "1"}),
     "P": lambda: Pick(value=Child("c", 1), many=[1, Child("x"), 2]),
+    "PA": lambda: PA(kid=Kid(k="1", own="x")),
+    "PB": lambda: PB(kid=Kid(k="2", own="y")),
+    "S1": lambda: Sched(when=[XmlDate(2001, 10, 26), 7]),
+    "S2": lambda: Sched(when=[XmlDateTime(2001, 10, 26, 21, 32, 52), XmlDate(2001, 10, 26)]),
 }
 JSONS = {
     "ja": '{"c": {"v": "one", "k": 1}, "n": 5, "q": "{urn:p1}name"}',
@@ -156,6 +201,9 @@ JSONS = {
     "jbad": '{"n": {"x": 1}}',
     "jsyntax": '{"n": ',
     "junknown": '{"zzz": 1}',
+    "js1": '{"when": ["2001-10-26", 7]}',
+    "js2": '{"when": ["2001-10-26T21:32:52", "2001-10-26"]}',
+    "jsbad": '{"when": ["not a date"]}',
 }
 STRICT = dict(fail_on_unknown_properties=True, fail_on_unknown_attributes=True, fail_on_converter_warnings=True)
 LENIENT = dict(fail_on_unknown_properties=False, fail_on_unknown_attributes=False, fail_on_converter_warnings=False)
@@ -207,6 +255,17 @@ OPS = [
     ("dict decode Pick", "dict", ("P",)),
     ("tree parse d2", "tree", ("d2",)),
     ("import a new model module", "import", ()),
+    ("parse pa as PA (lxml)", "parse", ("lxml", "pa", "PA", True)),
+    ("parse pb as PB (native)", "parse", ("native", "pb", "PB", True)),
+    ("serialize PA", "serialize", ("PA", None)),
+    ("serialize PB", "serialize", ("PB", None)),
+    ("json decode js1 as Sched", "json", ("js1", "Sched", True)),
+    ("json decode js2 as Sched", "json", ("js2", "Sched", True)),
+    ("json decode bad date as Sched", "json", ("jsbad", "Sched", True)),
+    ("serialize Sched 1", "serialize", ("S1", None)),
+    ("serialize Sched 2", "serialize", ("S2", None)),
+    ("parse rootx5 without class (lxml)", "parse", ("lxml", "rootx5", None, True)),
+    ("parse plain-w without class (lxml)", "parse", ("lxml", "plain-w", None, True)),
 ]
 _imported = itertools.count()
 
